@@ -1,58 +1,10 @@
 (** Value-level correctness of U256Defs.v, part 3: operator/= (shift-subtract
     long division; division by zero throws) and the byte-level compact codec. *)
 From Coq Require Import ZArith Lia List Bool.
-From VB Require Import Base.Bits Arith.CompactDefs Arith.U256Defs Arith.U256Basics Arith.U256Shift.
+From VB Require Import Base.Bits Arith.CompactDefs Arith.U256Defs Arith.U256Basics Arith.U256Shift Arith.U256Coded.
 Import ListNotations.
 Local Open Scope Z_scope.
 Ltac Zify.zify_post_hook ::= Z.div_mod_to_equations.
-
-(** * data_[i] |= m *)
-Lemma lor_lt_pow2 a b n : 0 <= n -> 0 <= a < 2 ^ n -> 0 <= b < 2 ^ n -> 0 <= Z.lor a b < 2 ^ n.
-Proof.
-  intros Hn Ha Hb.
-  assert (H0 : 0 <= Z.lor a b) by (apply Z.lor_nonneg; lia).
-  split; [exact H0|].
-  destruct (Z.eq_dec (Z.lor a b) 0) as [E|E]; [rewrite E; apply Z.pow_pos_nonneg; lia|].
-  apply Z.log2_lt_pow2; [lia|].
-  rewrite Z.log2_lor by lia.
-  destruct (Z.eq_dec n 0) as [->|Hn0].
-  { change (2 ^ 0) with 1 in *. assert (a = 0) by lia. assert (b = 0) by lia. subst. cbn in E. lia. }
-  apply Z.max_lub_lt.
-  - destruct (Z.eq_dec a 0) as [->|Ha0]; [cbn; lia|apply Z.log2_lt_pow2; lia].
-  - destruct (Z.eq_dec b 0) as [->|Hb0]; [cbn; lia|apply Z.log2_lt_pow2; lia].
-Qed.
-
-Lemma or_nth_spec : forall q i m, bytes_ok q -> (i < length q)%nat -> 0 <= m < 256 ->
-  uval (or_nth i m q) = Z.lor (uval q) (m * P256 i)
-  /\ bytes_ok (or_nth i m q) /\ length (or_nth i m q) = length q.
-Proof.
-  induction q as [|x r IH]; intros i m Hq Hi Hm.
-  - cbn [length] in Hi. lia.
-  - apply bytes_ok_cons in Hq. destruct Hq as [Hx Hr]. unfold byte_ok in Hx.
-    pose proof (uval_bound r Hr) as Hbd.
-    assert (Hxr : x + 256 * uval r = Z.lor x (Z.shiftl (uval r) 8)).
-    { rewrite lor_shiftl_add by (change (2 ^ 8) with 256; lia). change (2 ^ 8) with 256. lia. }
-    destruct i as [|j].
-    + pose proof (lor_lt_pow2 x m 8 ltac:(lia) ltac:(change (2 ^ 8) with 256; lia)
-                    ltac:(change (2 ^ 8) with 256; lia)) as Hl.
-      change (2 ^ 8) with 256 in Hl.
-      cbn [or_nth uval length]. unfold w8. rewrite (Z.mod_small (Z.lor x m)) by lia.
-      rewrite P256_0, Z.mul_1_r. split; [|split].
-      * rewrite Hxr. rewrite <- Z.lor_assoc, (Z.lor_comm (Z.shiftl (uval r) 8) m), Z.lor_assoc.
-        rewrite lor_shiftl_add by (change (2 ^ 8) with 256; lia). change (2 ^ 8) with 256. lia.
-      * apply bytes_ok_cons. split; [unfold byte_ok; lia|exact Hr].
-      * reflexivity.
-    + cbn [length] in Hi.
-      destruct (IH j m Hr ltac:(lia) Hm) as (Hv & Hb & Hl).
-      cbn [or_nth uval length]. split; [|split].
-      * rewrite Hv, Hxr, P256_S.
-        replace (m * (256 * P256 j)) with (Z.shiftl (m * P256 j) 8)
-          by (rewrite Z.shiftl_mul_pow2 by lia; change (2 ^ 8) with 256; lia).
-        rewrite <- Z.lor_assoc, <- Z.shiftl_lor.
-        rewrite lor_shiftl_add by (change (2 ^ 8) with 256; lia). change (2 ^ 8) with 256. lia.
-      * apply bytes_ok_cons. split; [exact Hx|exact Hb].
-      * rewrite Hl. reflexivity.
-Qed.
 
 (** the bit that [data_[shift / 8] |= 1 << (shift & 7)] sets *)
 Lemma setbit_spec q s : bytes_ok q -> 0 <= s < 8 * Z.of_nat (length q) ->
